@@ -64,7 +64,7 @@ Proof. reflexivity. Qed.
 
 (* C06: shape of the fallback listing — header, then exactly one
    "\n  --> path:line\n  label" block per entry, in order *)
-Definition fallback_block (rel : string) (e : entry) : string :=
+Definition fallback_block (rel : string) (e : fentry) : string :=
   String "010" "  --> " ++ rel ++ ":" ++ N_to_string (e_line_start e) ++ String "010" "  " ++ entry_label e.
 
 Theorem fallback_shape : forall rel e es,
